@@ -261,7 +261,7 @@ impl Prop for C08Prop {
         }
     }
     fn rule(&self) -> &'static str {
-        "idle decoder reached by one of 9 histories (new; after a delivered frame; after InvalidMessage; after InvalidEsc; after OutOfMemory; after reset(); after finalize(); after a source error; after a noise report), then noise g with `g ++ START contains START only at |g|` (classes: empty, random, ending in 1-9 x 1b, ending in 1-7 bytes of START, 1b1b1b1b then not 01, zeros, all-1b, long) and/or a frame cut at an offset where no 1b run or escape is in progress, then a valid frame. Non-trivial = noise or cut present; distinct = distinct scenario fingerprint"
+        "idle decoder reached by one of 9 histories (new; after a delivered frame; after InvalidMessage; after InvalidEsc; after OutOfMemory; after reset(); after finalize(); after a source error; after a noise report), then noise g with `g ++ START contains START only at |g|` (classes: empty, random, ending in 1-9 x 1b, ending in 1-7 bytes of START, 1b1b1b1b then not 01, zeros, all-1b, long incl. 65535..70000 bytes) and/or a frame cut at an offset where no 1b run or escape is in progress, then a valid frame. Non-trivial = noise or cut present; distinct = distinct scenario fingerprint"
     }
     fn assumptions(&self) -> Vec<&'static str> {
         vec![
